@@ -17,7 +17,7 @@ HARNESSES = {
     'k_read_le_u16': (('C04', 'C12', 'C18'), False, None, 'quick'),
     'k_read_le_u32': (('C04', 'C12', 'C18'), False, None, 'quick'),
     'k_read_le_u64': (('C04', 'C12', 'C17', 'C18'), False, None, 'quick'),
-    'k_names_ascii_order': (('C01', 'C03', 'C04', 'C09'), True, 'the 7 listed ASCII name pairs (a symbolic harness over all 2-byte names did not finish in 15 min)', 'quick'),
+    'k_names_ascii_order': (('C01', 'C03', 'C04', 'C09'), True, 'the 13 listed ASCII name pairs (a symbolic harness over all 2-byte names did not finish in 15 min)', 'quick'),
     'k_names_len_first': (('C01', 'C03', 'C04', 'C09'), True, 'the 4 listed name pairs of different UTF-16 length, with supplementary-plane characters', 'quick'),
     'k_path_normalisation': (('C01', 'C09', 'C10'), True, 'the 12 listed paths (., .., //, leading /, climbing above the root)', 'quick'),
     'k_timestamp_from_system_time': (('C17',), False, None, 'thorough'),
